@@ -379,3 +379,51 @@ Corollary crc_single_bit_detected payload mask a z :
   bits_of_bytes mask = zeros a ++ [true] ++ zeros z ->
   verify (xor_bytes (payload ++ trailer payload) mask) = false.
 Proof. intros L E. apply (crc_burst_detected payload mask a [true] z L E); cbn; [lia|reflexivity]. Qed.
+
+(* ---------- any corruption confined to at most 4 consecutive bytes ---------- *)
+Lemma first_true_split (l : list bool) : In true l ->
+  exists i w, l = zeros i ++ w /\ hd false w = true.
+Proof.
+  induction l as [|x l IH]; intros H; [destruct H|].
+  destruct x.
+  - exists 0, (true :: l). split; reflexivity.
+  - destruct H as [H|H]; [discriminate|]. destruct (IH H) as (i & w & E & Hw).
+    exists (S i), w. split; [cbn; rewrite E; reflexivity | exact Hw].
+Qed.
+
+Lemma byte_nonzero_has_bit : forall b, (b < 256)%N -> b <> 0%N -> In true (byte_bits b).
+Proof.
+  assert (K : forallb (fun b => orb (N.eqb b 0) (existsb (fun x => x) (byte_bits b))) (map N.of_nat (seq 0 256)) = true)
+    by (vm_compute; reflexivity).
+  intros b Hb Hn. rewrite forallb_forall in K.
+  assert (Hin : In b (map N.of_nat (seq 0 256))).
+  { replace b with (N.of_nat (N.to_nat b)) by apply N2Nat.id. apply in_map. apply in_seq. lia. }
+  specialize (K b Hin). apply orb_prop in K as [K|K]; [apply N.eqb_eq in K; contradiction|].
+  apply existsb_exists in K as (x & Hx & ->). exact Hx.
+Qed.
+
+Lemma bits_of_zero_bytes n : bits_of_bytes (repeat 0%N n) = zeros (8 * n).
+Proof.
+  induction n as [|n IH]; [reflexivity|].
+  cbn [repeat]. change (bits_of_bytes (0%N :: repeat 0%N n)) with (byte_bits 0 ++ bits_of_bytes (repeat 0%N n)).
+  rewrite IH. replace (8 * S n) with (8 + 8 * n) by lia. unfold zeros. rewrite repeat_app. reflexivity.
+Qed.
+
+Theorem crc_burst_bytes payload a m z :
+  a + length m + z = length payload + 4 ->
+  1 <= length m <= 4 ->
+  (exists b, In b m /\ (b < 256)%N /\ b <> 0%N) ->
+  verify (xor_bytes (payload ++ trailer payload) (repeat 0%N a ++ m ++ repeat 0%N z)) = false.
+Proof.
+  intros L Lm (b & Hb & Hlt & Hnz).
+  assert (Ht : In true (bits_of_bytes m)).
+  { unfold bits_of_bytes. apply in_flat_map. exists b. split; [exact Hb | apply byte_nonzero_has_bit; assumption]. }
+  destruct (first_true_split _ Ht) as (i & w & E & Hw).
+  assert (Lw : i + length w = 8 * length m).
+  { pose proof (bits_of_bytes_length m) as K. rewrite E, app_length, zeros_length in K. exact K. }
+  apply (crc_burst_detected payload _ (8 * a + i) w (8 * z)).
+  - rewrite !app_length, !repeat_length. lia.
+  - rewrite !bits_of_bytes_app, !bits_of_zero_bytes, E. unfold zeros. rewrite repeat_app, <- !app_assoc. reflexivity.
+  - destruct w as [|x w]; [discriminate|]. cbn [length] in *. lia.
+  - exact Hw.
+Qed.
